@@ -3,7 +3,9 @@
 //! allowed sets come from TLC.
 mod dbg;
 mod gating;
+mod gen;
 mod lex;
+mod lit;
 mod pipe;
 mod symtab;
 mod types;
@@ -22,8 +24,10 @@ fn main() {
         "types-table" => types::table(rest),
         "probe" => pipe::probe(rest),
         "gating-cases" => gating::cases(rest),
+        "lit-cases" => lit::cases(rest),
         "lex-cases" => lex::cases(rest),
         "lex-exhaustive" => lex::exhaustive(rest),
+        "lex-record" => lex::record(rest),
         other => {
             eprintln!("unknown subcommand {other}");
             std::process::exit(2);
